@@ -9,8 +9,8 @@ sources (`S3V.Gen.Errors`, tie A):
 * the status table agrees with the documentation, for every generated code;
 * code names survive `as_str` / `from_bytes`;
 * the error document is read back, by an independent reader of the error-document grammar, to exactly the
-  code, message and request id of the error — for all strings XML can carry that contain no carriage return
-  (`_partial`; the full statement is false of the code, see `S3V/Findings/C04.lean`);
+  code, message and request id of the error — for all strings XML can carry (full statement; before commit
+  7fbc5bc a carriage return was written raw and the statement was false, see `S3V/Findings/C04.lean`);
 * the status rule (override, else table, else 500) and the header rule;
 * the panics on these paths that are pure logic cannot happen (`unreachable!()` in `as_str`, `unwrap()` in
   `FromStr`, `unwrap()` in `fmt_content_length`).
@@ -106,40 +106,40 @@ theorem C04_serialize_error_total (e : S3Error) (noDecl : Bool) : ∃ r, seriali
 def Carriable (name : Bytes) (e : S3Error) : Prop :=
   xmlText name = true ∧ (∀ x, e.message = some x → xmlText x = true) ∧ (∀ x, e.requestId = some x → xmlText x = true)
 
-/-- no carriage return in the code name, the message or the request id -/
-def NoCR (name : Bytes) (e : S3Error) : Prop :=
-  (13 : UInt8) ∉ name ∧ (∀ x, e.message = some x → (13 : UInt8) ∉ x) ∧ (∀ x, e.requestId = some x → (13 : UInt8) ∉ x)
-
-/-- clause "rendered as a well-formed S3 error document carrying its code, message and request id" — the
-    full statement: an XML 1.0 reader of the error-document grammar reads the body back to exactly the
-    error's code name, message and request id, for all strings XML can carry.
-    FALSE of the code as it stands (`S3V.Findings.C04.C04_counterexample_cr`). -/
-def C04_error_doc_roundtrip_full : Prop :=
-  ∀ (e : S3Error) (noDecl : Bool) (r : Response) (name : Bytes),
-    serializeError e noDecl = some r → asStr e.code = some name → Carriable name e →
-    parseErrorDoc r.body = some { code := name, message := e.message, requestId := e.requestId }
-
-/-- the proved part: the same statement for strings without a carriage return (U+000D is written raw and an
-    XML processor turns it into U+000A; every other character, markup included, comes back unchanged) -/
-theorem C04_error_doc_roundtrip_partial (e : S3Error) (noDecl : Bool) (r : Response) (name : Bytes)
-    (hr : serializeError e noDecl = some r) (hname : asStr e.code = some name)
-    (hc : Carriable name e) (hcr : NoCR name e) :
+/-- clause "rendered as a well-formed S3 error document carrying its code, message and request id": an XML
+    1.0 reader of the error-document grammar (entity replacement, §2.11 line-end normalisation, `Char`
+    check) reads the body back to exactly the error's code name, message and request id — for ALL strings
+    XML can carry: markup, quotes, white space including U+000D (written as `&#13;`), non-ASCII; no bound on
+    lengths -/
+theorem C04_error_doc_roundtrip (e : S3Error) (noDecl : Bool) (r : Response) (name : Bytes)
+    (hr : serializeError e noDecl = some r) (hname : asStr e.code = some name) (hc : Carriable name e) :
     parseErrorDoc r.body = some { code := name, message := e.message, requestId := e.requestId } := by
   have hb : r.body = bodyOf name e noDecl := by
     simp only [serializeError, hname] at hr
     cases hr
     rfl
   rw [hb]
-  exact parseErrorDoc_bodyOf name e noDecl hc.1 hc.2.1 hc.2.2 hcr.1 hcr.2.1 hcr.2.2
+  exact parseErrorDoc_bodyOf name e noDecl hc.1 hc.2.1 hc.2.2
 
-/-- the hypotheses are met by a realistic error: `NoSuchKey`, a message with markup, quotes and non-ASCII,
-    a request id -/
+/-- the hypothesis is met by a realistic error: `NoSuchKey`, a message with markup, quotes, non-ASCII, a
+    carriage return and a line feed, a request id -/
 example :
     let e : S3Error := { code := .known .NoSuchKey,
-                         message := some [60, 107, 62, 32, 38, 32, 34, 195, 169, 34, 10],   -- `<k> & "é"\n`
+                         message := some [60, 107, 62, 32, 38, 32, 34, 195, 169, 34, 13, 10],   -- `<k> & "é"\r\n`
                          requestId := some [52, 52, 52, 50], statusCode := none, headers := none }
-    Carriable (variantIdent .NoSuchKey) e ∧ NoCR (variantIdent .NoSuchKey) e := by
-  refine ⟨⟨by decide, ?_, ?_⟩, ⟨by decide, ?_, ?_⟩⟩ <;> intro x hx <;> cases hx <;> decide
+    Carriable (variantIdent .NoSuchKey) e := by
+  refine ⟨by decide, ?_, ?_⟩ <;> intro x hx <;> cases hx <;> decide
+
+/-- the rendered body never contains a raw carriage return (so §2.11 normalisation cannot alter it) -/
+theorem C04_no_raw_cr (e : S3Error) (noDecl : Bool) (r : Response) (hr : serializeError e noDecl = some r) :
+    (13 : UInt8) ∉ r.body := by
+  obtain ⟨name, hname⟩ := C04_as_str_total e.code
+  have hb : r.body = bodyOf name e noDecl := by
+    simp only [serializeError, hname] at hr
+    cases hr
+    rfl
+  rw [hb]
+  exact cr_bodyOf name e noDecl
 
 /-- what the escaping guarantees on its own, for ALL byte strings: replacing the references in an escaped
     text gives the text back (the `unescape ∘ escape = id` lemma of the reader used here) -/
